@@ -276,7 +276,7 @@ def _clone(v):
 class Scenario(object):
     """Finite facts a path depends on."""
     def __init__(self, name='', bind=None, axioms=None, inline=None, inline_props=None, max_depth=3, self_cls=None,
-                 args=None, unroll=None, oracle=None, forward_stores=True):
+                 args=None, unroll=None, oracle=None, forward_stores=True, model_del=True):
         self.name = name
         self.bind = bind or {}            # dotted path -> Val
         self.axioms = axioms or {}        # normalised condition text -> bool
@@ -288,6 +288,7 @@ class Scenario(object):
         self.unroll = unroll or {}        # iterable text -> list of Vals
         self.oracle = oracle              # callable(condition text) -> bool | None  (scenario facts given as a predicate)
         self.forward_stores = forward_stores   # False for parse methods: attribute stores go through property setters
+        self.model_del = model_del        # del buf[:n] rebinds buf to the remaining octets (False for reader-sequence extraction)
 
 
 BUILTIN_TYPES = {'str', 'bytes', 'bytearray', 'int', 'bool', 'list', 'tuple', 'set', 'dict', 'NoneType', 'datetime',
@@ -406,6 +407,21 @@ class Frame(object):
             st.events.append(('del', self.text(t, st), node.lineno))
             if isinstance(t, ast.Name):
                 st.env.pop(t.id, None)
+            elif self.sc.model_del and isinstance(t, ast.Subscript) and isinstance(t.value, ast.Name):
+                # del buf[:n] / del buf[0]  on a local buffer: the buffer now denotes the remaining octets
+                cur = st.env.get(t.value.id)
+                if cur is None:
+                    cur = Sym(t.value.id)
+                n = None
+                if isinstance(t.slice, ast.Slice) and t.slice.lower is None and t.slice.step is None and t.slice.upper is not None:
+                    n = self.text(t.slice.upper, st)
+                elif not isinstance(t.slice, ast.Slice):
+                    iv = self.ev(t.slice, st)
+                    if isinstance(iv, Const) and iv.value == 0:
+                        n = '1'
+                if n is not None:
+                    inner = merge_consts(cur.items) if isinstance(cur, Bytes) else render(cur)
+                    st.env[t.value.id] = Bytes([('SLICE', inner, n, '')])
         return [(st, 'normal')]
 
     def st_FunctionDef(self, node, st):
@@ -494,9 +510,10 @@ class Frame(object):
         if d is False:
             return self.block(node.orelse, st)
         t = self.cond_text(node.test, st)
+        sk = self.cond_skel(node.test, st)
         s1, s2 = st, st.fork()
-        s1.facts.append((t, True))
-        s2.facts.append((t, False))
+        s1.facts.append((t, True, sk))
+        s2.facts.append((t, False, sk))
         return self.block(node.body, s1) + self.block(node.orelse, s2)
 
     def st_With(self, node, st):
@@ -518,7 +535,7 @@ class Frame(object):
                 for h in node.handlers:
                     s2 = s.fork()
                     s2.raised = None
-                    s2.facts.append(('except %s' % (self.text(h.type, s2) if h.type is not None else ''), True))
+                    s2.facts.append(('except %s' % (self.text(h.type, s2) if h.type is not None else ''), True, None))
                     if h.name:
                         s2.env[h.name] = Sym(h.name)
                     outs.extend(self.block(h.body, s2))
@@ -527,7 +544,7 @@ class Frame(object):
         # exceptional entry into each handler from the try's entry state (the body may raise anywhere)
         for h in node.handlers:
             s2 = entry.fork()
-            s2.facts.append(('except %s' % (self.text(h.type, s2) if h.type is not None else ''), True))
+            s2.facts.append(('except %s' % (self.text(h.type, s2) if h.type is not None else ''), True, None))
             if h.name:
                 s2.env[h.name] = Sym(h.name)
             outs.extend(self.block(h.body, s2))
@@ -594,7 +611,7 @@ class Frame(object):
         normal = [s for s, status in body if status in ('normal', 'continue', 'break')]
         for s, status in body:
             if status in ('return', 'raise'):
-                s.facts.append(('in loop over %s' % colltext, True))
+                s.facts.append(('in loop over %s' % colltext, True, None))
                 outs.append((s, status))
         if not normal:
             # loop body always leaves: the zero-iteration path continues
@@ -712,6 +729,24 @@ class Frame(object):
         if isinstance(test, ast.UnaryOp) and isinstance(test.op, ast.Not):
             return 'not %s' % self.cond_text(test.operand, st)
         return self.text(test, st)
+
+    def cond_skel(self, test, st):
+        """Boolean skeleton of a test with normalised atoms:
+           ('not', s) ('and', [s..]) ('or', [s..]) ('cmp', op, left, right) ('call', func, [args]) ('expr', text)"""
+        if isinstance(test, ast.BoolOp):
+            return ('or' if isinstance(test.op, ast.Or) else 'and', [self.cond_skel(v, st) for v in test.values])
+        if isinstance(test, ast.UnaryOp) and isinstance(test.op, ast.Not):
+            return ('not', self.cond_skel(test.operand, st))
+        d = self.decide(test, st)
+        if d is not None:
+            return ('const', d)
+        if isinstance(test, ast.Compare) and len(test.ops) == 1:
+            return ('cmp', OPS[type(test.ops[0])], self.text(test.left, st), self.text(test.comparators[0], st))
+        if isinstance(test, ast.Call):
+            ft = self.text(test.func, st)
+            args = [self.text(a, st) for a in test.args]
+            return ('call', ft, args)
+        return ('expr', self.text(test, st))
 
     def truth(self, v):
         if isinstance(v, Const):
@@ -908,6 +943,8 @@ class Frame(object):
                 try:
                     lit = ast.literal_eval(av)
                     if isinstance(lit, (tuple, list)):
+                        if not lit:
+                            return Sym(normalise_path(path))     # abstract default, overridden by concrete subclasses
                         return ListV([Const(x) for x in lit], 'tuple')
                     return Const(lit)
                 except Exception:
